@@ -31,7 +31,7 @@ func c07Scenarios(tier string) []*Scenario {
 		out = append(out, &Scenario{
 			Name:  fmt.Sprintf("C07/%s [%s] script=%s", name, stackStr(stack), scriptStr(script)),
 			Bound: bound, Reduce: true,
-			Body:  stackBody(stack, script, RunOpts{Grace: 10 * L, Probes: true, Reduce: true, Check: check}),
+			Body: stackBody(stack, script, RunOpts{Grace: 10 * L, Probes: true, Reduce: true, Check: check}),
 		})
 	}
 	T := Spec{Kind: KTimeout, Limit: L}
